@@ -64,7 +64,24 @@ def jobs(tier, seed):
                                 kw=dict(max_useful_life=m, max_order_quantity=Q, max_demand=D)))
     for S in range(1, 7):
         out.append(dict(name=f"forest-S{S}", problem="forest", devices=1, cost=1, kw=dict(S=S)))
+    # the same obligations for an instance created after sibling instances (one parameter changed each) in the same process
+    for name in ("de_moor-m2-L2-Q2-fifo", "hendrix-m1-Qa2-Qb1", "hendrix-m2-Qa1-Qb1", "mirjalili-m2-Q2-D1", "mirjalili-m3-Q1-D3", "forest-S3"):
+        j = [x for x in out if x["name"] == name]
+        if j:
+            out.append(dict(j[0], name=name + "-after-siblings", history=True, cost=j[0]["cost"] + 50))
+    # bounds that do not fit narrow integer types
+    out.append(dict(name="de_moor-m2-L1-Q130-fifo", problem="de_moor", devices=1, cost=400,
+                    kw=dict(max_demand=3, max_useful_life=2, lead_time=1, max_order_quantity=130, issue_policy="fifo")))
+    out.append(dict(name="hendrix-m1-Qa130-Qb1", problem="hendrix", devices=1, cost=300, kw=dict(max_useful_life=1, max_order_quantity_a=130, max_order_quantity_b=1)))
+    out.append(dict(name="mirjalili-m2-Q130-D1", problem="mirjalili", devices=1, cost=400, kw=dict(max_useful_life=2, max_order_quantity=130, max_demand=1)))
     return out
+
+
+def build(job):
+    if job.get("history"):
+        with shipped.history():
+            return shipped.build(job["problem"], **job["kw"])
+    return shipped.build(job["problem"], **job["kw"])
 
 
 def documented_sizes(p, kw):
@@ -88,7 +105,7 @@ def space_box(space):
 def run_job(job):
     ob = Obligations(job)
     p, kw = job["problem"], job["kw"]
-    pb = shipped.build(p, **kw)
+    pb = build(job)
     ss, as_, es = np.asarray(pb.state_space), np.asarray(pb.action_space), np.asarray(pb.random_event_space)
     nS, nA, nE = documented_sizes(p, kw)
     ob.prove("documented-sizes", [], (len(ss), len(as_), len(es)) == (nS, nA, nE), kind="sizes",
@@ -159,7 +176,7 @@ def finding_key(v):
 def replay(data):
     c = unq(data["cex"])
     job = data["job"]
-    pb = shipped.build(job["problem"], **job["kw"])
+    pb = build(job)
     ss = np.asarray(pb.state_space)
     if c is None or c.get("kind") != "closure":
         nS, nA, nE = documented_sizes(job["problem"], job["kw"])
